@@ -235,11 +235,11 @@ fn check_program(ast: &Ast, vars: &[(&'static str, RV)], ci: usize, st: &mut Sta
             }
             type ER = Result<EV, EErr>;
             context_free!("Node::eval", eval, |f: &ER| format!("{:?}", f));
-            context_free!("Node::eval_int", eval_int, |f: &ER| format!("{:?}", f.clone().and_then(|v| match v { Value::Int(i) => Ok(i), o => Err(EvalexprError::expected_int(o)) })));
-            context_free!("Node::eval_boolean", eval_boolean, |f: &ER| format!("{:?}", f.clone().and_then(|v| match v { Value::Boolean(b) => Ok(b), o => Err(EvalexprError::expected_boolean(o)) })));
-            context_free!("Node::eval_empty", eval_empty, |f: &ER| format!("{:?}", f.clone().and_then(|v| match v { Value::Empty => Ok(()), o => Err(EvalexprError::expected_empty(o)) })));
-            context_free!("Node::eval_float", eval_float, |f: &ER| format!("{:?}", f.clone().and_then(|v| match v { Value::Float(x) => Ok(x), o => Err(EvalexprError::expected_float(o)) })));
-            context_free!("Node::eval_string", eval_string, |f: &ER| format!("{:?}", f.clone().and_then(|v| match v { Value::String(x) => Ok(x), o => Err(EvalexprError::expected_string(o)) })));
+            context_free!("Node::eval_int", eval_int, |f: &ER| format!("{:?}", f.clone().and_then(|v| match v { Value::Int(i) => Ok(i), o => Err(EvalexprError::ExpectedInt { actual: o }) })));
+            context_free!("Node::eval_boolean", eval_boolean, |f: &ER| format!("{:?}", f.clone().and_then(|v| match v { Value::Boolean(b) => Ok(b), o => Err(EvalexprError::ExpectedBoolean { actual: o }) })));
+            context_free!("Node::eval_empty", eval_empty, |f: &ER| format!("{:?}", f.clone().and_then(|v| match v { Value::Empty => Ok(()), o => Err(EvalexprError::ExpectedEmpty { actual: o }) })));
+            context_free!("Node::eval_float", eval_float, |f: &ER| format!("{:?}", f.clone().and_then(|v| match v { Value::Float(x) => Ok(x), o => Err(EvalexprError::ExpectedFloat { actual: o }) })));
+            context_free!("Node::eval_string", eval_string, |f: &ER| format!("{:?}", f.clone().and_then(|v| match v { Value::String(x) => Ok(x), o => Err(EvalexprError::ExpectedString { actual: o }) })));
             st.count("context-free-forms-checked");
         }
     }
